@@ -109,34 +109,76 @@ def options(case, root: Path) -> dict:
         pub = {"repository": {"local": "published", "git": "git@github.com:foo/bar.git", "url": "https://github.com/foo/bar.git"}[mode],
                "username": "u", "password": "p"}
     pkg = {"target": TARGET, "version": VERSION, key: {"platforms": plats, "publish": pub}}
-    if case.get("out_abs"):
-        pkg["out"] = str(root / "proj" / "outabs")
+    spelled = out_spelling(case, root)
+    if spelled is not None:
+        pkg["out"] = spelled
     return {"package": pkg, "build": {"conan": {}}}
 
 
+# ---- where the operation is started and where `package.out` (with the build and package directories below it) lies ----
+# cwd: "proj" = the project directory; "sub" = a sub-directory of it (the process working directory at call time is not the
+#      directory the absolute paths of the configuration were written for).
+# out: "dist" the default (relative, one level); "nested" relative, several levels; "in_abs" absolute, in the project directory;
+#      "else_abs" absolute, outside the project directory; "dotdot" relative through `..`, outside the project directory.
+OUT_KINDS = ("dist", "nested", "in_abs", "else_abs", "dotdot")
+CWD_KINDS = ("proj", "sub")
+
+
+def out_kind(case) -> str:
+    return case.get("out") or ("in_abs" if case.get("out_abs") else "dist")
+
+
+def cwd_components(case) -> list[str]:
+    return ["proj", "sub"] if case.get("cwd") == "sub" else ["proj"]
+
+
+def out_spelling(case, root: Path):
+    """`package.out` as the configuration spells it (None = not configured)"""
+    k = out_kind(case)
+    if k == "dist":
+        return None
+    if k == "nested":
+        return "build/out/pkg"
+    if k == "in_abs":
+        return str(root / "proj" / "outabs")
+    if k == "else_abs":
+        return str(root / "ext" / "out")
+    if k == "dotdot":
+        return "../" * len(cwd_components(case)) + "ext_up/artifacts"
+    raise ValueError(k)
+
+
 def out_components(case) -> dict:
-    return {"abs": True, "c": ["proj", "outabs"]} if case.get("out_abs") else {"abs": False, "c": ["dist"]}
+    """the same as a path value of the model"""
+    k = out_kind(case)
+    return {"dist": {"abs": False, "c": ["dist"]}, "nested": {"abs": False, "c": ["build", "out", "pkg"]},
+            "in_abs": {"abs": True, "c": ["proj", "outabs"]}, "else_abs": {"abs": True, "c": ["ext", "out"]},
+            "dotdot": {"abs": False, "up": len(cwd_components(case)), "c": ["ext_up", "artifacts"]}}[k]
+
+
+def out_base(case) -> list[str]:
+    """the directory `package.out` denotes, from the sandbox root"""
+    k = out_kind(case)
+    return {"dist": cwd_components(case) + ["dist"], "nested": cwd_components(case) + ["build", "out", "pkg"],
+            "in_abs": ["proj", "outabs"], "else_abs": ["ext", "out"], "dotdot": ["ext_up", "artifacts"]}[k]
 
 
 def pkg_out(case) -> list[str]:
-    base = ["proj", "outabs"] if case.get("out_abs") else ["proj", "dist"]
-    return base + [case.get("configuration", "release"), "package", case["key"]]
+    return out_base(case) + [case.get("configuration", "release"), "package", case["key"]]
 
 
 def repo_dir(case) -> list[str]:
-    base = ["proj", "outabs"] if case.get("out_abs") else ["proj", "dist"]
-    return base + [case.get("configuration", "release"), "build", case["key"], "package_repository"]
+    return out_base(case) + [case.get("configuration", "release"), "build", case["key"], "package_repository"]
 
 
 def pkg_build(case) -> list[str]:
-    base = ["proj", "outabs"] if case.get("out_abs") else ["proj", "dist"]
-    return base + [case.get("configuration", "release"), "build", case["key"], "package"]
+    return out_base(case) + [case.get("configuration", "release"), "build", case["key"], "package"]
 
 
 def initial_files(case) -> list[list[str]]:
     fs = []
     if case.get("readme"):
-        fs.append(["proj", "README.md"])
+        fs.append(cwd_components(case) + ["README.md"])
     if case.get("stale"):
         fs.append(pkg_out(case) + [stale_name(case)])
     return fs
@@ -164,7 +206,7 @@ def model_request(case, templates) -> dict:
            "readme": {"abs": False, "c": ["README.md"]} if (key == "nuget" and case.get("readme")) else None,
            "mavenRemote": mode == "remote", "nugetLocal": mode == "local",
            "swiftRepo": mode if key == "swiftpackage" else "git", "swiftLocal": {"abs": False, "c": ["published"]}}
-    req = {"op": "c20.run", "cfg": cfg, "phase": case["phase"], "cwd": ["proj"], "files": initial_files(case), "fault": None}
+    req = {"op": "c20.run", "cfg": cfg, "phase": case["phase"], "cwd": cwd_components(case), "files": initial_files(case), "fault": None}
     f = case.get("fault")
     if f:
         req["fault"] = {"k": f["k"], "kind": f["model_kind"]}
@@ -215,10 +257,14 @@ def _rel(root: Path, p) -> list[str]:
 
 
 def _listing(root: Path) -> list[list[str]]:
+    """every file of the sandbox except the stub tools and their log (the output base may lie outside the project directory)"""
     out = []
-    for d, _, files in os.walk(root / "proj"):
-        for f in files:
-            out.append(list((Path(d) / f).relative_to(root).parts))
+    for top in sorted(os.listdir(root)):
+        if top == "bin" or not (root / top).is_dir():
+            continue
+        for d, _, files in os.walk(root / top):
+            for f in files:
+                out.append(list((Path(d) / f).relative_to(root).parts))
     return sorted(out)
 
 
@@ -279,7 +325,7 @@ def _guarded(fn):
 
 def _run_case(case, root: Path, api):
     from pydjinni import API
-    proj = root / "proj"
+    proj = root.joinpath(*cwd_components(case))     # the directory the operation is started in
     proj.mkdir(parents=True)
     for fpath in initial_files(case):
         p = root.joinpath(*fpath)
